@@ -1405,10 +1405,17 @@ def _mp_visit_worker(ready_queue, done_event, callback):
     from queue import Empty
 
     while True:
+        # Sample the shutdown flag *before* trying to receive. The producer only
+        # sets it after every item has been flushed to the queue, so "flag was
+        # set, then the receive timed out" means that nothing is left for us.
+        # Checking the flag only after the timeout could race with the producer
+        # flushing its last item and lose that item.
+        done = done_event.is_set()
+
         try:
             args = ready_queue.get(True, timeout=1)
         except Empty:
-            if done_event.is_set():
+            if done:
                 break
             continue
 
